@@ -356,7 +356,7 @@ class FDE:
                 it = self._ev(s.iter, env, fi)
                 if isinstance(it, (dict, set)):
                     it = list(it)
-                if not isinstance(it, (list, tuple)):
+                if not isinstance(it, (list, tuple)) and type(it).__name__ not in ('list_iterator', 'tuple_iterator', 'dict_keyiterator', 'dict_itemiterator', 'dict_valueiterator', 'set_iterator', 'list_reverseiterator', 'enumerate', 'zip'):
                     raise Unsupported('for over non-concrete iterable: %s' % unparse(s.iter))
                 broke = False
                 for x in it:
